@@ -134,7 +134,10 @@ class Monitor:
             self.end()
             if res.exec_nodes is not None:
                 mine = sorted([s, list(L)] for s in self.begun for L in self.begun[s])
-                if mine != sorted(res.exec_nodes):
+                # (a node with a negative time is not a step: with async_requests the debug graph gets a placeholder
+                # node (sid, -1) for a simulator that has not stepped yet)
+                theirs = sorted(n for n in res.exec_nodes if not (n[1] and n[1][0] < 0))
+                if mine != theirs:
                     self.v("C02.label", f"execution graph nodes {res.exec_nodes} != monitor labels {mine}")
         return self.viol
 
